@@ -271,6 +271,26 @@ func doCase(r *hx.Run, tc *tcase) (string, string, error) {
 	ann := annotate(r, tc, lib)
 	op := fmt.Sprintf("%s %s%s %dx%d %s %s %s %s %s", tc.kind, b01(tc.uc), b01(tc.ew), tc.sw, tc.sh,
 		chainStr(tc.chain), ints(tc.args), lib.String(), ann, hexSegs(tc.segs))
+	if tc.kind == "wrap" && len(tc.segs) > 0 {
+		// 9th field: the clusters of each Segment's text segmented as a whole (what Characters(seg.Text)
+		// returns), as id:hex — the driver checks that Wrap's per-line-segment clusters are these
+		// ("never splitting a cluster across cells")
+		var ws []string
+		for _, sg := range tc.segs {
+			var cs []string
+			for _, c := range rawClusters(sg.text) {
+				cs = append(cs, fmt.Sprintf("%d:%s", gid(c), hx.Hex(c)))
+			}
+			if len(cs) == 0 {
+				cs = []string{"-"}
+			}
+			ws = append(ws, strings.Join(cs, ","))
+		}
+		op += " " + strings.Join(ws, "|")
+		if len(tc.segs) > 1 {
+			r.Count("wrap:multi-segment")
+		}
+	}
 
 	if tc.kind == "chars" {
 		text := ""
